@@ -84,6 +84,28 @@ def table_rule(chk, prog):
             chk.finding("TABLE.select", WMM, "WMM.reset_date", "selection on a rounded date: %s" % ast.unparse(test), why, line=test.lineno)
         else:
             chk.record("TABLE.select", site, "the decimal year compared with the epoch boundary is not rounded or truncated first")
+    # DATE-FORM: the decimal year the thresholds are compared with is, on every path, the caller's number itself or year + day-of-year/365 of the date object
+    import re as _re
+    exits = [st_ for _, st_ in _T(f, prog).analyse().returns if st_ is not None]
+    forms = set()
+    for st_ in exits:
+        forms |= members(st_.get("s:date_dec") or "?")
+    ok_forms, bad_forms = [], []
+    for m_ in sorted(forms):
+        if m_ == "P:date" or m_ == "float(P:date)":
+            ok_forms.append(m_)
+        elif _re.fullmatch(r"Add\(Div\((.+)\.timetuple\(\)\.tm_yday,c:365(?:\.0)?\),(.+)\.year\)", m_) and \
+                _re.fullmatch(r"Add\(Div\((.+)\.timetuple\(\)\.tm_yday,c:365(?:\.0)?\),(.+)\.year\)", m_).group(1) == _re.fullmatch(r"Add\(Div\((.+)\.timetuple\(\)\.tm_yday,c:365(?:\.0)?\),(.+)\.year\)", m_).group(2):
+            ok_forms.append(m_)
+        else:
+            bad_forms.append(m_)
+    site = WMM + "::WMM.reset_date::self.date_dec"
+    if bad_forms or len(ok_forms) < 2:
+        why = "on some path the decimal year is %s: neither the caller's decimal year nor year + day-of-year/365 of the given date" % (bad_forms[0][:90] if bad_forms else "not assigned from the argument")
+        chk.record("TABLE.date", site, "decimal year is the argument itself or year + yday/365", verdict="VIOLATION", detail=why)
+        chk.finding("TABLE.date", WMM, "WMM.reset_date", "decimal year formula", why, line=f.node.lineno)
+    else:
+        chk.record("TABLE.date", site, "on every path the decimal year is float(date) or year + day-of-year/365 of the date object (%d forms)" % len(ok_forms))
     if len(arms) < 3:
         chk.error("TABLE: found %d model-selection arms in reset_date, 3 confirmed by hand" % len(arms))
         return
